@@ -406,6 +406,59 @@ func Scenarios() []*Scenario {
 	nft("nftxfer/cross-dst", true, true, func(s *Scn) node.Call { return s.Xfer("N", s.A, s.Other, "s") })
 	nft("nftxfer/cross-dst-call", true, true, func(s *Scn) node.Call { return s.Xfer("N", s.A, s.KOther, "n", att...) })
 
+	// an NFT that has GROWN through use: attributes of 1.5 KB and 71 URIs (one at creation, seven
+	// ESDTNFTAddURI calls of ten each) - the marshalled entry is well over 2 KB
+	grow := func(s *Scn) {
+		s.U.N.Exec(gen.SelfCall(FNFTUpdAttr, s.A, gen.BigGas, s.SFT, gen.U64(1), make([]byte, 1500)))
+		for k := 0; k < 7; k++ {
+			args := [][]byte{s.SFT, gen.U64(1)}
+			for j := 0; j < 10; j++ {
+				args = append(args, []byte{byte('a' + k), byte('0' + j), '/', 'u', 'r', 'i'})
+			}
+			s.U.N.Exec(gen.SelfCall(FNFTAddURI, s.A, gen.BigGas, args...))
+		}
+	}
+	nft("nftxfer/same-grown", false, false, func(s *Scn) node.Call { grow(s); return s.Xfer("N", s.A, s.Same, "s") })
+	nft("nftxfer/cross-snd-grown", false, true, func(s *Scn) node.Call { grow(s); return s.Xfer("N", s.A, s.Other, "s") })
+	nft("nftxfer/cross-snd-call-grown", false, true, func(s *Scn) node.Call { grow(s); return s.Xfer("N", s.A, s.KOther, "S", att...) })
+	nft("nftxfer/cross-dst-grown", true, true, func(s *Scn) node.Call { grow(s); return s.Xfer("N", s.A, s.Other, "s") })
+	add(&Scenario{Name: "adduri/grown", Func: FNFTAddURI, OwnField: "ESDTNFTAddURI", Mult: 1,
+		Exec: func(s *Scn, g uint64) *node.Leg {
+			grow(s)
+			args := [][]byte{s.SFT, gen.U64(1)}
+			for j := 0; j < 10; j++ {
+				args = append(args, []byte{'z', byte('0' + j)})
+			}
+			return s.U.N.Exec(gen.SelfCall(FNFTAddURI, s.A, g, args...))
+		},
+		PerByte: func(s *Scn, l *node.Leg) map[string]uint64 {
+			return map[string]uint64{"StorePerByte": sumLen(l.Call.Args[2:])}
+		}})
+	add(&Scenario{Name: "updattr/grown", Func: FNFTUpdAttr, OwnField: "ESDTNFTUpdateAttributes", Mult: 1,
+		Exec: func(s *Scn, g uint64) *node.Leg {
+			grow(s)
+			return s.U.N.Exec(gen.SelfCall(FNFTUpdAttr, s.A, g, s.SFT, gen.U64(1), make([]byte, 700)))
+		},
+		PerByte: func(s *Scn, l *node.Leg) map[string]uint64 {
+			return map[string]uint64{"StorePerByte": uint64(len(l.Call.Args[2]))}
+		}})
+	// a role list that has grown long: the system contract granted the same roles again and again
+	// (it may: the list is the library's to keep) and roles this version has no function for
+	longRoles := func(s *Scn) {
+		for k := 0; k < 4; k++ {
+			s.U.N.Exec(node.Call{Func: FSetRole, Caller: gen.SysSC, Recipient: s.A, Args: [][]byte{s.F1, []byte(RoleBurn), []byte("ESDTTransferRole"), []byte("ESDTRoleFutureUse")}})
+		}
+		s.U.N.Exec(node.Call{Func: FSetRole, Caller: gen.SysSC, Recipient: s.A, Args: [][]byte{s.F1, []byte(RoleMint)}})
+	}
+	xf("localmint/long-role-list", false, "ESDTLocalMint", func(s *Scn) node.Call {
+		longRoles(s)
+		return gen.SelfCall(FLocalMint, s.A, 0, s.F1, gen.Big(77))
+	})
+	xf("localburn/long-role-list", false, "ESDTLocalBurn", func(s *Scn) node.Call {
+		longRoles(s)
+		return gen.SelfCall(FLocalBurn, s.A, 0, s.F1, gen.Big(7))
+	})
+
 	// ---- multi transfer ----
 	multi := func(name string, dest bool, cross bool, pattern string, mk func(s *Scn) node.Call) {
 		sc := &Scenario{Name: name, Dest: dest, OwnField: "ESDTNFTMultiTransfer", Mult: uint64(len(pattern))}
